@@ -1219,6 +1219,16 @@ func doWalk(cs *connState, ref *fidRef, names []string, getattr bool) (qids []QI
 	if len(names) == 0 {
 		var sf File // Temporary.
 		if err := ref.maybeParent().safelyRead(func() (err error) {
+			if ref.parent != nil {
+				// The lock taken above is the parent's (the clone is
+				// added to its children). The clone itself is a Walk
+				// (and GetAttr) on ref.file, which has the read
+				// guarantee on ref's own path: take that lock too,
+				// parent before child.
+				ref.pathNode.opMu.RLock()
+				defer ref.pathNode.opMu.RUnlock()
+			}
+
 			// Clone the single element.
 			qids, sf, valid, attr, err = walkOne(nil, ref.file, nil, getattr)
 			if err != nil {
